@@ -10,7 +10,7 @@ from tools import dfir, vlib
 class C22(dfir.DfirSpec):
     tag = "C22"
     props_vo = "theories/Props/C22.vo"
-    theorems = ["C22_perturbation_operators", "C22_identity_insert", "C22_pull_push", "C22_realisation_is_model", "C22_partition_shape", "C22_gadgets", "C22_splice_preserves", "C22_rename_preserves_run", "C22_cycles_preserved", "C22_compile_agreement", "C22_reduce_no_replay_partial", "C22_reduce_no_replay_refuted"]
+    theorems = ["C22_perturbation_operators", "C22_identity_insert", "C22_pull_push", "C22_realisation_is_model", "C22_partition_shape", "C22_gadgets", "C22_splice_preserves", "C22_rename_preserves_run", "C22_cycles_preserved", "C22_compile_agreement", "C22_reduce_no_replay_pull_push"]
     modes = ("ticks", "avail")
     level = "proof"
     assumptions = [
@@ -29,23 +29,6 @@ class C22(dfir.DfirSpec):
 
     def n_cases(self, tier):
         return 320 if tier == "quick" else 3200
-
-    def finding_key(self, case, res):
-        """reduce_no_replay: the push-placed variant alone differs from the others, emitting less"""
-        if not case.get("group", "").startswith("reduce_no_replay") or self.failed(res):
-            return None
-        names = [dfir.catalogue()[i].name.split("__")[1] for i in case["progs"]]
-        runs = res["runs"]
-        canon = lambda r: json.dumps([sorted(map(json.dumps, o)) for o in r["outs"]]) + json.dumps(r["obs"])
-        base = [canon(r) for v, r in zip(names, runs) if v != "push"]
-        push = [r for v, r in zip(names, runs) if v == "push"]
-        if not base or not push or len(set(base)) != 1:
-            return None
-        other = [r for v, r in zip(names, runs) if v != "push"][0]
-        fewer = all(len(po) <= len(oo) for po, oo in zip(push[0]["outs"], other["outs"]))
-        if canon(push[0]) != base[0] and fewer:
-            return "reduce_no_replay/push-placement/first-item-not-flagged"
-        return None
 
     def gen(self, rng, tier, n):
         if not hasattr(self, "low"):
